@@ -4,7 +4,7 @@ CONSTANT Palette = {1, 2, 3}
 CONSTANT NH = 4
 CONSTANT MaxLen = 3
 CONSTANT Rot = 1
-CONSTANT Grps = {"pair_adj", "pair_skip", "pair_basic", "range", "range_empty"}
+CONSTANT Grps = {"pair_adj", "pair_skip", "pair_dup", "pair_basic", "range", "range_empty"}
 INIT Init
 NEXT GenNext
 CHECK_DEADLOCK FALSE
